@@ -22,7 +22,7 @@ RULE = ('plain keys: secret from boundary classes (small, near n, leading zero b
         'without hints; get_key_format on WIF, extended keys and BIP38-shaped strings; BIP38 export (compared with '
         'ref/bip38) -> Key(bip38, password=) import for secrets biased to a last byte 01/00. Non-trivial = non-bitcoin network or '
         'witness type other than segwit (library default) or multisig or leading-zero secret or depth > 0 or uncompressed; '
-        'distinct by (key, metadata, configuration, import specs). [every imported object: both public encodings, x, y against the reference and import of its own exports; secrets whose point has leading-zero coordinates]')
+        'distinct by (key, metadata, configuration, import specs). [every imported object: both public encodings, x, y against the reference and import of its own exports; secrets whose point has leading-zero coordinates] [BIP38 round trips also through HDKey]')
 ASSUMPTIONS = ['ref/networks_pinned.json holds the intended prefix of every network (snapshot of the baseline, cross-checked '
                'against public chain parameters for bitcoin/testnet/litecoin/dogecoin)',
                'witness type / multisig are demanded after import only when the version bytes determine them uniquely among '
